@@ -50,6 +50,10 @@ TraceNext ==
        \* ... at the end: every drain was exact and together they yielded every value pushed (never more than Cap per cycle)
        [] Ev = "overlap.final"   -> Obs(/\ cpc = "swap" /\ consumes = A[2] /\ ~dirty /\ StrictDrainsExact
                                         /\ LET S == UNION {Range(drains[i].vals) : i \in DOMAIN drains} IN Cardinality(S) = A[1])
+       \* a push from a thread-local destructor at thread exit after A[2] ordinary pushes: it did not panic, the thread ended
+       \* normally, and the next drain counts A[2] + 1 pushes
+       [] Ev = "tls"             -> Obs(/\ A[1] = Cap /\ A[3] = 0 /\ A[4] = 1
+                                        /\ A[5] = Min(A[2] + 1, Cap) /\ A[6] = RateMicro(Min(A[2] + 1, Cap), A[2] + 1))
        \* real-parallel hammer run: no push panicked, and every overflowing push drew from the range its own index prescribes
        [] Ev = "hammer"          -> Obs(/\ A[2] = 0
                                         /\ Rec[l].bad = <<>>
